@@ -80,6 +80,7 @@ async def main():
             """run a command as Scheduler.process_command_queue does"""
             await commands.run_cmd(gen)
             sim.schd.is_updated = True
+
         schd = sim.schd
 
         def held():
@@ -106,8 +107,7 @@ async def main():
         print('2. 1/a has run                  pool =', pool(),
               ' tasks_to_hold =', held())
         assert pool() == [('1/b', 'waiting', 'held')], pool()
-        await cmd(
-            commands.force_trigger_tasks(schd, ['1/a'], []))
+        await cmd(commands.force_trigger_tasks(schd, ['1/a'], []))
         print('3. trigger 1/a (re-run parent)  pool =', pool(),
               ' tasks_to_hold =', held())
         for ev in sim.trace:
